@@ -38,6 +38,60 @@ def demo_inputs(tier):
     return ins
 
 
+def synthetic_inputs(tier, work, which):
+    """Synthetic references with controlled skip patterns (transcripts whose only variant is intronic) and a donor
+    transcript that carries two fusions with different breakpoints, a circRNA and SNVs downstream of the first breakpoint."""
+    from vlib import refgen, cvgen
+    r = env.rng('callrun-synth')
+    ntx = 5
+    if which == 'C06':
+        patterns = ['00001', '00011', '10001', '01010', '11110', '00100'] if tier == 'quick' else \
+            [format(k, '05b') for k in range(1, 32)]
+    else:
+        patterns = ['00000', '00010'] if tier == 'quick' else ['00000', '00010', '01001', '00001']
+    out = []
+    for pi, pat in enumerate(patterns):
+        while True:
+            ref = refgen.random_reference(r, n_genes=ntx, coding_p=1.0, max_exons=3, aa_len=(24, 34), strands=(1, -1))
+            txs = list(ref.txs.values())
+            if all(len(t.exons) >= 2 for t in txs):
+                break
+        d = os.path.join(work, f'synth_{which}_{pi}'); os.makedirs(d, exist_ok=True)
+        paths = ref.write(d)
+        small, intronic = [], []
+        for k, t in enumerate(txs):
+            g = ref.genes[t.gene]
+            chrom = ref.chroms['chr1']
+            if pat[k] == '1':
+                # intron-only variant: the transcript is in the GVF but yields nothing
+                x = (t.exons[0][1] + t.exons[1][0]) // 2
+                gp = g.g2gene(x)
+                base = g.seq(chrom)[gp]
+                alt = 'A' if base != 'A' else 'C'
+                small.append(dict(tx=t.id, gene=t.gene, gstart=gp, ref=base, alt=alt, id=f'SNV-{gp + 1}-{base}-{alt}'))
+            else:
+                vs = cvgen.random_small_variants(r, ref, t, 3, kinds=('SNV',))
+                small += vs
+        files = []
+        f1 = os.path.join(d, 'small.gvf'); cvgen.write_gvf(f1, small); files.append(f1)
+        donor = next((t for k, t in enumerate(txs) if pat[k] == '0'), None)
+        others = [t for t in txs if donor is not None and t.id != donor.id]
+        if donor is not None and others:
+            lines = []
+            L = donor.length()
+            bps = sorted({donor.cds_start + 9, donor.cds_start + 12 + (L - donor.cds_start) // 2})
+            for b, acc in zip(bps, others):
+                if b < L - 2:
+                    lines.append(cvgen.fusion_line(ref, donor, donor.tx2g(b), acc, acc.tx2g(min(6, acc.length() - 3)))[1])
+            f2 = os.path.join(d, 'fusion.gvf'); cvgen.write_gvf_lines(f2, lines, 'parseSTARFusion', 'Fusion'); files.append(f2)
+            f3 = os.path.join(d, 'circ.gvf')
+            cvgen.write_gvf_lines(f3, [cvgen.circ_line(ref, donor, list(range(len(donor.exons))))[1]], 'parseCIRCexplorer', 'circRNA')
+            files.append(f3)
+        out.append(dict(name=f'synth_{pat}', gvfs=[], light=(which == 'C06'), opts=dict(min_length=4, miscleavage='1', min_mw='0.00005'),
+                        ref=paths, files=files))
+    return out
+
+
 def job_for(inp, outdir, threads=1, skip_failed=False, fail=None, files=None, ref=None, prep=None,
             extra=None):
     a = dict(ref or inp['ref'])
@@ -246,7 +300,7 @@ def check_c06(tier):
     model_check(rep, tier, 'C06')
     work = env.scratch('c06_')
     runs, meta = [], []
-    for inp in demo_inputs(tier):
+    for inp in demo_inputs(tier) + synthetic_inputs(tier, work, 'C06'):
         m = build_model(inp, rep, work)
         if m is None:
             continue
@@ -259,11 +313,26 @@ def check_c06(tier):
         for th in ((2, 3, 4) if tier == 'quick' else (2, 3, 4, 5, 8)):
             add(f'threads={th}', threads=th)
         nsplit = 2 if tier == 'quick' else 6
+        if inp.get('light'):
+            nsplit = 0
         for k in range(nsplit):
             d = os.path.join(work, f"{inp['name']}_split{k}"); os.makedirs(d, exist_ok=True)
             files = split_files(inp['files'], 2 + k % 2, d, f"{inp['name']}{k}")
             add(f'split{k}', files=files, threads=1 + (k % 2))
         # .idx files produced by the real indexGVF
+        if inp.get('light'):
+            results = jobs.run_jobs('run_cv_case.py', jl, hs)
+            runs.append(run_record(m, dict(ok=True, parent=m['base_parent'],
+                                           fasta=[('', s) for s in m['base_table']], fasta_exists=True),
+                                   1, False, [], f"{inp['name']}:baseline"))
+            meta.append((inp['name'], 'baseline', len(m['base_table'])))
+            for (label, th), res in zip(labels, results):
+                if str(res.get('error', '')).startswith('HARNESS'):
+                    rep.machinery(f"{inp['name']} {label}: {res.get('error')} {res.get('stderr', '')[-300:]}")
+                    continue
+                runs.append(run_record(m, res, th, False, [], f"{inp['name']}:{label}"))
+                meta.append((inp['name'], label, len(m['base_table'])))
+            continue
         d = os.path.join(work, f"{inp['name']}_idx"); os.makedirs(d, exist_ok=True)
         idxfiles = []
         for f in inp['files']:
@@ -321,6 +390,7 @@ def check_c07(tier):
     runs, meta = [], []
     inputs = demo_inputs(tier)
     inputs = [i for i in inputs if i['name'] in ('demo6', 'demo5_nct', 'snp_circ_nct', 'demo5', 'demo6_sect')]
+    inputs += synthetic_inputs(tier, work, 'C07')
     for inp in inputs:
         m = build_model(inp, rep, work)
         if m is None:
